@@ -242,7 +242,11 @@ class Scenario:
             FakeDatetime._now = self.ref_now
             err = None
             try:
-                self.run_command(K.repo_on(w, self.ui, be))
+                with C.time_limit(25):
+                    self.run_command(K.repo_on(w, self.ui, be))
+            except C.Hang:
+                self.viol('order:command-hangs', f'{self.kind} under a randomised completion order did not return within 25 s', {'kind': 'scenario', 'idx': self.idx, 'tier': self.tier, 'part': 'order'})
+                raise
             except Exception as e:  # noqa: BLE001
                 err = err_kind(e)
             K.settle()
@@ -425,7 +429,12 @@ class Scenario:
             FakeDatetime._now = self.ref_now
             err = None
             try:
-                self.run_command(K.repo_on(w, self.ui, be))
+                with C.time_limit(25):
+                    self.run_command(K.repo_on(w, self.ui, be))
+            except C.Hang:
+                self.viol('fault:command-hangs', f'{self.kind} with a permanently failing {state["failed"]} (call #{i}) did not return within 25 s: a failed call must end the command with an error',
+                          {'kind': 'scenario', 'idx': self.idx, 'tier': self.tier, 'part': 'fault', 'call': i})
+                raise
             except Exception as e:  # noqa: BLE001
                 err = type(e).__name__
             K.settle()
@@ -481,9 +490,12 @@ def run_scenario(arg):
         s = Scenario(seed, idx, tier, sc)
         s.build()
         s.res['summary'] = s.summary
-        s.part_a(2 if quick else 4)
-        s.part_b(14 if quick else None, 3 if quick else None)
-        s.part_c(10 if quick else 40)
+        try:
+            s.part_a(2 if quick else 4)
+            s.part_b(14 if quick else None, 3 if quick else None)
+            s.part_c(10 if quick else 40)
+        except C.Hang:
+            pass         # recorded as a violation; the worker's state (parked threads of the real code) is not reusable for this scenario
         return s.res
 
 
